@@ -28,13 +28,29 @@ REAL = ["mysensors.ota (prepare_fw, respond_fw, respond_fw_config, load_fw, make
 STUBS = ["radio link and bootloader nodes (simulated peers)", "serial port / socket / asyncio transports", "disk (SimFS)", "clock"]
 ASSUMPTIONS = ["the peers' CRC is an independent bitwise CRC-16/MODBUS; the HEX writer is independent of intelhex",
                "images up to 2 KiB in the quick tier; the thorough tier adds images up to 32 KiB in 4% of runs"]
-REQUIRED_PROBES = ["transfers_completed", "retransmissions", "nodes_interleaved", "hex_loaded"]
+REQUIRED_PROBES = ["transfers_completed", "retransmissions", "nodes_interleaved", "hex_loaded", "history_block_responses"]
 
 LENGTHS = [1, 15, 16, 17, 127, 128, 129, 255, 256, 257, 383, 384, 385, 1023, 1024, 1025, 2047, 2048]
 BIG = [4095, 4096, 8191, 16384, 32767, 32768]
 
 
+HISTORY_WEIGHTS = {"ctl_fw": 16, "stream_cfg": 16, "stream_blk": 30, "stream_bad": 3, "stream_other": 1, "value": 4, "present_node": 8,
+                   "present_child": 3, "req": 1, "heartbeat": 1, "presleep": 1, "ctl_set": 1, "garbage": 0, "invalid_frame": 0,
+                   "unknown_traffic": 1, "idreq": 0, "internal_other": 0, "battery": 0, "sketch": 0, "config": 0, "time": 0,
+                   "gwready": 0, "discover_resp": 0, "metric": 0, "advance": 0}
+
+
 def gen(rng, tier, index):
+    if rng.random() < 0.3:
+        # history mode: the shared lock-step harness with several firmwares loaded, sessions re-assigned in the
+        # middle of a download and late requests for the firmware of the superseded session
+        from checks import netgen  # pylint: disable=import-outside-toplevel
+        cfg = netgen.base_cfg(rng, ["serial", "tcp", "aserial", "atcp", "mqtt", "amqtt"])
+        if cfg["flavour"] in ("mqtt", "amqtt"):
+            cfg["in_prefix"], cfg["out_prefix"] = "gw-out", "gw-in"
+        cfg["hex_record_len"] = rng.choice([1, 7, 16, 32])
+        ops = netgen.make_ops(rng, cfg["version"], rng.randint(20, 60), HISTORY_WEIGHTS, nodes=(1, 3), image_max=400)
+        return {"cfg": dict(cfg, mode="history"), "ops": ops}
     flavour = rng.choice(["serial", "tcp", "aserial", "atcp"])
     images = []
     for _ in range(rng.randint(1, 3)):
@@ -229,8 +245,19 @@ class Bootloader:
         self.token += 1
 
 
+def _run_history(case):
+    from checks import netcheck  # pylint: disable=import-outside-toplevel
+    res = netcheck.run_net(case, {"C09"}, lambda probes, run_: bool(probes.get("ota_block_responses", 0) >= 3 and probes.get("ota_sessions_scheduled", 0) >= 2))
+    probes = res["probes"]
+    if probes.get("ota_block_responses"):
+        probes["history_block_responses"] = probes["ota_block_responses"]
+    return res
+
+
 def run(case):
     cfg = case["cfg"]
+    if cfg.get("mode") == "history":
+        return _run_history(case)
     flavour = cfg["flavour"]
     fs = simfs.SimFS()
     world = W.World(flavour, {"protocol_version": cfg["version"], "reconnect_timeout": 1e7}, fs=fs, sched=cfg["sched"], max_steps=6_000_000)
@@ -378,6 +405,8 @@ def run(case):
 
 def shrinkers(case):
     cfg = case["cfg"]
+    if cfg.get("mode") == "history":
+        return
     for i, img in enumerate(cfg["images"]):
         data = img["data"]
         if len(data) > 2:
